@@ -37,6 +37,8 @@ class Spec:
     rule = ""
     trusted_base = BASE_TRUST
     assumptions = []
+    # lean modules with the tie theorems `translated source = model` for the code this property is about
+    src_ties = []
 
     def streams(self, tier, rng):
         return []
